@@ -105,7 +105,11 @@ def run_case(mod, campaign, case):
     from sim import invoker
     invoker.setup()
     invoker.reset_state()      # nothing an earlier run of this worker left inside bumpver's modules carries over
-    campaign.run(case, ctx)
+    try:
+        campaign.run(case, ctx)
+    finally:
+        if not os.environ.get("VERIF_KEEP_SCRATCH"):
+            invoker.purge_scratch()
     leaked = invoker.reset_state()
     if leaked:
         ctx.count("module_state_mutated_by_run", leaked)
